@@ -11,23 +11,74 @@ from common import REPO
 READY = True
 
 META = {
-    "technique": "Lean 4 proof of the depth accounting of every native re-entry of the interpreter (weighted nesting <= limit for all traces, exits restore the depth) + regenerated cost/site/exit-path tables + differential runs of recursive program shapes in child processes: an instrumented build (verif_hooks: high-water marks, depth probes) for the accounting, builds WITHOUT hooks (opt-0 debug, opt-1 debug, release; 2 MiB threads and main thread) for the stack, with measured stack bytes per level",
+    "technique": "Lean 4 proof of the depth accounting of every native re-entry of the interpreter (weighted nesting <= limit for all traces incl. traces with Rust callbacks between the re-entries, exits restore the depth, decidable stack budget) + regenerated cost/site/exit-path tables, re-entry call graph of the whole crate with the charge of every edge, frame-size relevant declarations of eval_impl + differential runs of recursive program shapes in child processes: an instrumented build (verif_hooks: high-water marks, depth probes) for the accounting, builds WITHOUT hooks (opt-0 debug, opt-1 debug, release; 2 MiB threads and main thread) for the stack, with measured stack bytes per level",
     "category": "proof",
-    "text": "PARTIAL by nature. Kernel-checked (24 obligations): in the model of Context::{push_frame,incr_depth,decr_depth,check_depth,restore_stack_depth} and of the native re-entries of eval_impl (macro call, caller(), include/import, block call/self.x()/State::render_block, super()) every re-entry first passes a checked depth increase of its edge cost (macro MACRO_RECURSION_COST+2, include INCLUDE_RECURSION_COST, block/super 1; constants regenerated from source); returning, failing at any nesting depth below, and not finding a template all leave the caller's depth exactly as it was, without panic (leave_restores_context, failed_include_depth_restored, missing_include_depth_neutral); the sum of edge costs over the native nesting is <= the limit in every reachable state for every mixture of edges; nested activations <= limit; a run with >= limit pending re-entries cannot return ok and fails at the first attempt that does not fit; set_recursion_limit clamps to MAX_RECURSION=500. Tie: tables regenerated from vm/mod.rs, vm/context.rs, environment.rs, compiler/parser.rs (re-entry sites with guards, exit paths of perform_include, every site of the crate that creates a Context/State or raises the depth - each classified root/constructor/guarded -, depth check, limit source, clamp) and ~13000 (quick) recursive shapes per build: cycles over include/import/macro/call-block/block/super/recursive-loop edges and over edges that pass through Rust (State::call_macro/render_block/apply_filter/perform_test, Value::call/call_method, Rust filters/tests via map/select/filter blocks, nested call blocks), depth-neutral noise on every frame between depth probes, 1000-iteration drift loops, limits 0..usize::MAX, cloned environments, render/render_captured/render_captured_to/render_named_str/new_state entry points: model-predicted outcome and high-water marks of ctx.depth()/nested eval_impl equal the hook's. NOT proved: native stack bytes per re-entry and per parser level; measured each run on builds without hooks and reported. Known findings (same two causes): block calls/super() cost 1 depth unit per ~13.7 KB (opt-0) native re-entry, and a loader-provided template is compiled on top of the running recursion with the parser's separate 150-level budget (C11_lazy_counterexample); see KNOWN_FINDINGS.jsonl.",
+    "text": "PARTIAL by nature. Kernel-checked (36 obligations): in the model of Context::{push_frame,incr_depth,decr_depth,check_depth,restore_stack_depth} and of the native re-entries of eval_impl (macro call, caller(), include/import, block call/self.x()/State::render_block, super()) every re-entry first passes a checked depth increase of its edge cost (macro MACRO_RECURSION_COST+2, include INCLUDE_RECURSION_COST, block/super 1; constants regenerated from source); returning, failing at any nesting depth below, and not finding a template all leave the caller's depth exactly as it was, without panic (leave_restores_context, failed_include_depth_restored, missing_include_depth_neutral); the sum of edge costs over the native nesting is <= the limit in every reachable state for every mixture of edges; nested activations <= limit; a run with >= limit pending re-entries cannot return ok and fails at the first attempt that does not fit; set_recursion_limit clamps to MAX_RECURSION=500. every_reentry_charged: in the regenerated call graph of the crate (every function from which eval_impl is reachable by static calls) the loop and its trampolines are called only by the four guarded functions (charges 6/10/1/1 computed from the source expressions = the model's costs) and by the root Executor::eval; wrappers (State::render_block, render_block_to_write, Macro::call, Template::render*, Expression::eval) and every function that hands the State to a callback (Value::call, call_method, State::call_macro/apply_filter/perform_test, builtin map/select) contain no depth operation (callbacks_depth_neutral); the seven functions of the crate that adjust a depth at all are tabled (depth_ops_confined); rust_callbacks_transparent: a trace with Rust callback frames between the depth events ends exactly like its depth events, so a recursion through Rust is charged on top of the depth the callback found; stack_budget_holds: if the decidable check budgetOK (entry overhead + MAX_RECURSION x max over the kinds P of ceil((bytes(kind) + H x callback bytes) / cost(kind)) < stack) is true for measured bytes, no mixture of re-entries of kinds P with <= H callbacks nested per activation overflows at any limit up to the default - the driver evaluates this very function on every run's two-limit measurements (limit 100 and 500, main thread, every pure cycle) for each build profile, 2 MiB and 8 MiB, and the result must be true for the kinds that are not known findings; frame_constants_tied: parameters, locals, fixed-size arrays (2 x MAX_LOCALS x 8 bytes) and inline attributes of eval_impl/vm are the regenerated ones, arrays x MAX_RECURSION within a quarter of 2 MiB, no measured frame smaller than its arrays. Tie: tables regenerated from vm/mod.rs, vm/context.rs, environment.rs, compiler/parser.rs (re-entry sites with guards, exit paths of perform_include, every site of the crate that creates a Context/State or raises the depth - each classified root/constructor/guarded -, depth check, limit source, clamp) and ~13000 (quick) recursive shapes per build: cycles over include/import/macro/call-block/block/super/recursive-loop edges and over edges that pass through Rust (State::call_macro/render_block/apply_filter/perform_test, Value::call/call_method, Rust filters/tests via map/select/filter blocks, nested call blocks), depth-neutral noise on every frame between depth probes, 1000-iteration drift loops, limits 0..usize::MAX, cloned environments, render/render_captured/render_captured_to/render_named_str/new_state entry points: mixed cycles over nodes that exist as macro and as block, reached through Rust callbacks (function / filter / test / object call / call_method -> State::render_block, render_block_to_write, call_macro, Value::call; through State::apply_filter / perform_test / builtin map / select), include lists with missing candidates / ignore missing / from-import on the cycle, Environment::empty() and the unconfigured default limit, super() 1000 times between depth probes: model-predicted outcome, high-water marks of ctx.depth()/nested eval_impl and of the callback frames on the stack equal the observed ones; model-free oracle: a recursion with more nested steps than the limit has units never completes. NOT proved: native stack bytes per re-entry and per parser level; measured each run on builds without hooks and reported. Known findings (same two causes): block calls/super() cost 1 depth unit per ~13.7 KB (opt-0) native re-entry (in the release profile a block re-entered through State::render_block under filter/test/object callbacks needs 4.3-5.1 KB per level: over 2 MiB at the default limit), and a loader-provided template is compiled on top of the running recursion with the parser's separate 150-level budget (C11_lazy_counterexample); see KNOWN_FINDINGS.jsonl.",
     "design_ref": "DESIGN.md §3 C11",
-    "level_note": "The stack bytes per re-entry are MEASURED, NOT PROVED: the theorems bound the number and weighted sum of nested interpreter activations by the recursion limit for every mixture of edges; that this bound keeps the native stack below 2 MiB depends on compiler, profile and target and is only observed (child processes must not die by signal; bytes/level per edge kind and the margin 500 x max(bytes/cost) vs 2 MiB are in the evidence). The stack oracle (no death by signal) runs on builds of the crate WITHOUT verif_hooks; the instrumented build has larger frames and its overflows are only counted. Trusted: Lean kernel; hand model MJ/Model/Depth.lean of context.rs/vm re-entry bookkeeping (validated differentially: outcome, depth and nesting high-water marks equal on all generated shapes); regex translator lib/tables/c11.py; the verif_hooks counters. Not covered: recursion through user Rust callbacks that start a fresh render (classified as roots in context_sites_classified: they get a fresh budget), empty-state entry (new_state + render_block) only validated via a shift argument in the driver, the `stacker` feature, stack use of filters/tests/objects called at the bottom, platforms other than this x86-64 Linux toolchain.",
+    "level_note": "The stack bytes per re-entry are MEASURED, NOT PROVED: the theorems bound the number and weighted sum of nested interpreter activations by the recursion limit for every mixture of edges; that this bound keeps the native stack below 2 MiB depends on compiler, profile and target and is only observed (child processes must not die by signal; bytes/level per edge kind and the margin 500 x max(bytes/cost) vs 2 MiB are in the evidence). The stack oracle (no death by signal) runs on builds of the crate WITHOUT verif_hooks; the instrumented build has larger frames and its overflows are only counted. Trusted: Lean kernel; hand models MJ/Model/Depth.lean, MJ/Model/DepthHop.lean of context.rs/vm re-entry bookkeeping and of callback frames (validated differentially: outcome, depth and nesting high-water marks equal on all generated shapes); regex translator lib/tables/c11.py; the verif_hooks counters. Not covered: recursion through user Rust callbacks that start a fresh render (classified as roots in context_sites_classified: they get a fresh budget), empty-state entry (new_state + render_block) only validated via a shift argument in the driver, the `stacker` feature, stack use of filters/tests/objects called at the bottom, platforms other than this x86-64 Linux toolchain.",
 }
 
 TABLES = ["MACRO_RECURSION_COST", "INCLUDE_RECURSION_COST", "MAX_RECURSION_ENV", "C11_REENTRY_SITES",
           "C11_DEPTH_CHECK", "C11_LIMIT_CLAMP", "C11_INCLUDE_EXITS", "C11_DECR_DEPTH", "C11_CONTEXT_SITES", "C11_LIMIT_SOURCE", "C11_CONTEXT_HELPERS",
-          "MAX_RECURSION_PARSER"]
+          "MAX_RECURSION_PARSER", "C11_CHARGES", "C11_FRAME", "C11_ENV_LIMITS", "MAX_LOCALS"]
+EIGHT_MIB = 8 << 20
 TWO_MIB = 2 << 20
 NOISE_NAME = {"d": "lazy-load-deep-expr", "e": "lazy-load-deep-ast", "f": "lazy-load-deep-stmts", "g": "swallowed-lazy-syntax-error",
               "h": "swallowed-lazy-parser-limit", "0": "none", "1": "include-missing", "2": "include-missing-list", "3": "include", "4": "import", "5": "from-import",
               "6": "macro-call", "7": "call-block", "8": "with-for", "9": "render_block", "a": "call_macro",
-              "b": "swallowed-missing-include", "c": "swallowed-failing-include"}
+              "b": "swallowed-missing-include", "c": "swallowed-failing-include", "i": "super", "j": "captured-super"}
 CLASS = {"B": "block-cycle(self.block/super/render_block)", "S": "super-chain", "T": "include-cycle",
          "M": "macro-cycle", "L": "recursive-loop", "N": "depth-neutral-loop"}
+CYCLES = "TMBX"
+# a block re-entered through State::render_block from below a filter / test / object callback
+# (also via State::apply_filter / perform_test / the builtin map / select): same charge of one unit
+# per level as any block call, more native stack per level
+CLASS_BX = "block-cycle(render_block under filter/test/object callbacks)"
+
+
+def self_terminating(shape):
+    """below a `{% from … import … %}` the output is discarded and `{% block %}` statements do nothing:
+    an include cycle that passes a from-import and then relies on a block statement to go on ends by
+    itself (no recursion to cut)"""
+    if shape[0] != "T":
+        return False
+    edges = shape[2:].split(",")
+    if not any(e[0] == "F" for e in edges):
+        return False
+    # the innermost capture discards: set by from-import, cleared by every capturing construct on
+    # the way (filter / set block around the step, import, loop(…), macro, call block)
+    disc = False
+    for t in range(3 * len(edges) + 1):
+        e = edges[t % len(edges)]
+        if disc and e[0] == "E":
+            return True
+        dnode = disc and e[3] not in "23"
+        if dnode and e[0] == "B":
+            return True
+        disc = e[0] == "F" or (dnode and e[0] not in "PLWKY")
+    return False
+
+
+def class_of(shape):
+    """what a failure of the shape is attributed to: the family, for the mixed family the cheapest
+    edge on the cycle (a block call is charged one unit, a macro call six)"""
+    fam = shape[0]
+    if fam == "X":
+        kinds = [e[0] for e in shape[2:].split(",")]
+        if any(k in "ftguposh" for k in kinds):
+            return CLASS_BX
+        return CLASS["B"] if any(k.islower() for k in kinds) else CLASS["M"]
+    return CLASS.get(fam, fam)
+
+
+# Rust callbacks between the template code and the re-entry, per edge kind of the pure cycles
+HOPS_OF = {"M:Q": 1, "M:O": 1, "M:H": 1, "M:F": 2, "M:E": 2, "M:G": 2, "M:U": 2, "M:D": 1, "B:R": 1,
+           "X:r": 1, "X:w": 1, "X:f": 1, "X:t": 1, "X:o": 1, "X:h": 1, "X:g": 2, "X:u": 2, "X:p": 2, "X:s": 2,
+           "X:Q": 1, "X:O": 1, "X:F": 1, "X:T": 1, "X:G": 2, "X:P": 2}
+# pure cycles whose every native re-entry is of one model kind, without callbacks
+PLAIN_OF = {"macroCall": ["M:M", "M:A", "X:M"], "includeTpl": ["T:I", "T:P", "T:X", "T:Z", "T:V", "T:F"],
+            "blockCall": ["B:B", "B:V", "X:b"], "superCall": ["S:super()"]}
+KIND_OF_HOP = {"M": "macroCall", "B": "blockCall"}
 
 
 # build profiles: `hooks` = minijinja with feature verif_hooks (high-water marks, depth probes: the
@@ -94,7 +145,7 @@ def parse_case(case):
 
 def is_lazy(shape):
     fam = shape[0]
-    if fam in "TMB":
+    if fam in CYCLES:
         return any(e[4] in LAZY for e in shape[2:].split(","))
     return fam == "N" and shape[3] in LAZY
 
@@ -103,38 +154,43 @@ def evaluate(r, profile, lines, model, stats, max_recursion, band_start=None):
     hooks = PROFILES[profile]["hooks"]
     for i, line in enumerate(lines):
         f = line.split("\t")
-        if len(f) != 9:
+        if len(f) != 10:
             r.broken.append(f"harness line not understood ({profile}): {line[:120]}")
             continue
-        case, status, hwd, hwn, topk, rootk, nbytes, over, drift = f
+        case, status, hwd, hwn, topk, rootk, nbytes, over, drift, hops = f
         shape, limit, budget, thread = parse_case(case)
         thread_base, _, mode = thread.partition("+")
         fam = shape[0]
-        cls = CLASS.get(fam, fam)
+        cls = class_of(shape)
         # a template compiled lazily on top of the recursion is a second consumer of native stack
-        site_cls = f"lazy-parse-at-depth/{cls}" if is_lazy(shape) else cls
-        hwd, hwn, nbytes, over = int(hwd), int(hwn), int(nbytes), int(over)
+        # (a block re-entered under filter/test/object callbacks is already beyond the budget by
+        # itself in the profiles where it fails: one site with or without a lazy compile on top)
+        site_cls = f"lazy-parse-at-depth/{cls}" if is_lazy(shape) and cls != CLASS_BX else cls
+        hwd, hwn, nbytes, over, hops = int(hwd), int(hwn), int(nbytes), int(over), int(hops)
         full = f"{profile} {case}"
-        ms = md = mn = None
+        ms = md = mn = mh = None
         if model is not None:
-            mc, ms, md, mn = model[i].split("\t")[:4]
+            mf = model[i].split("\t")
+            mc, ms, md, mn = mf[:4]
             md, mn = int(md), int(mn)
+            mh = int(mf[5]) if fam == "X" and len(mf) > 5 else None
             if mc != case:
                 r.broken.append("model driver output does not line up with the harness cases")
                 model, ms = None, None
         depth_seen = hwd if hooks else (md or 0)
         r.count(full, nontrivial=(depth_seen >= 3 or status.startswith("signal")))
         r.hist["profile"][profile] += 1
-        r.hist["family"][cls] += 1
+        r.hist["family"][CLASS.get(fam, "mixed-cycle(macros and blocks through Rust callbacks)" if fam == "X" else fam)] += 1
+        r.hist["configuration"]["+".join(t for t in mode.split("+") if t in ("empty", "deflimit", "clone")) or "Environment::new()+set_recursion_limit"] += 1
         r.hist["status"][status.split(":")[0] + (":" + status.split(":")[1] if status.startswith("err") else "")] += 1
         r.hist["limit"][limit] += 1
         r.hist["thread"][thread_base] += 1
         toks = [t for t in mode.split("+") if t]
-        r.hist["entry_point"]["+".join(t for t in toks if not (len(t) == 2 and t[0] == "r")) or "render"] += 1
+        r.hist["entry_point"]["+".join(t for t in toks if not (len(t) == 2 and t[0] == "r") and t not in ("empty", "deflimit")) or "render"] += 1
         r.hist["root_context_kind"][next((ROOT_KIND.get(t[1], t) for t in toks if len(t) == 2 and t[0] == "r"), "map")] += 1
         mode = "+".join(t for t in toks if not (len(t) == 2 and t[0] == "r"))
         r.hist["top_error_kind"][topk] += 1
-        if fam in "TMB":
+        if fam in CYCLES:
             for e in shape[2:].split(","):
                 r.hist["edge"][fam + ":" + e[0]] += 1
                 r.hist["noise_on_frame"][NOISE_NAME.get(e[4], e[4])] += 1
@@ -155,8 +211,16 @@ def evaluate(r, profile, lines, model, stats, max_recursion, band_start=None):
         else:
             if status.startswith("err:other") or status.startswith("bad-case"):
                 r.oracle_failure(full, f"recursive render failed with {status}, not with the recursion error", f"wrong-error:{cls}")
-            if budget == 0 and fam in "TMB" and status != "err:recursion":
+            if budget == 0 and fam in CYCLES and status != "err:recursion" and not self_terminating(shape):
                 r.oracle_failure(full, f"unbounded recursion returned {status}", f"unbounded-recursion-not-cut:{cls}")
+            # model-free: every nested step of a recursion is charged at least one unit, so a
+            # recursion with more nested steps than the limit has units cannot complete
+            steps = budget if fam in CYCLES else (int(shape.split(":")[1]) if fam in "SL" else 0)
+            if steps > bound + 1 and status == "ok" and not self_terminating(shape):
+                r.oracle_failure(full, f"a recursion of {steps} nested steps completed at recursion limit {bound}: "
+                                       f"the limit was not applied", f"over-limit-recursion-not-cut:{cls}")
+            if fam == "X" and mh is not None and ms is not None and hops != mh:
+                r.model_disagreement(full, f"{status} callbacks on the stack={hops}", f"{ms} callbacks={mh}")
             if hooks and drift != "-":
                 kind = drift.split(":")[0]
                 r.oracle_failure(full, f"Context::depth() is not restored by a completed nested construct ({drift}): every completed "
@@ -200,6 +264,14 @@ def evaluate(r, profile, lines, model, stats, max_recursion, band_start=None):
                 c["witness"] = case
             c["max_bytes_seen"] = max(c["max_bytes_seen"], nbytes)
             st["overhead"] = max(st["overhead"], over)
+        # points for the two-limit slopes: pure cycles without work / noise and super chains, main
+        # thread (8 MiB: also the kinds that do not fit 2 MiB at the default limit), builds without hooks
+        if (not hooks and not crashed and budget == 0 and thread == "main" and nbytes > 0 and nn >= 2
+                and ((fam in CYCLES and "," not in shape and shape.endswith("0000")) or (fam == "S" and shape.endswith(":0")))):
+            key = shape[:3] if fam in CYCLES else "S:super()"
+            cur = st["points"].setdefault(key, {}).get(limit)
+            if cur is None or nn > cur[2]:
+                st["points"][key][limit] = (nbytes, dd, nn, case)
         if i % 797 == 0:
             r.sample({"case": full, "result": status, "hw_depth": hwd, "hw_native": hwn, "stack_bytes": nbytes})
 
@@ -214,7 +286,9 @@ def run(r):
               "cycles of length 2..4 per family with noise on every frame, every noise statement 1000 times in a loop at top level / inside an "
               "include / macro / block / include-in-macro, super() chains and recursive for-loops over "
               "nested data below/at/above the limit; x limits {1,2,10,100,500} (thorough: 1..500 step 7) x {main thread, 2 MiB thread} "
-              "x unbounded / two terminating budgets x build profiles; each case in a child process. A case is non-trivial when the "
+              "x unbounded / two terminating budgets (and budgets above the limit) x build profiles; mixed cycles X over macro/block nodes "
+              "through Rust callbacks (19 edge kinds); include lists / ignore missing / from-import edges; Environment::empty() and the "
+              "unconfigured default limit; super() between depth probes; each case in a child process. A case is non-trivial when the "
               "run reaches Context::depth() >= 3 (or dies).")
     r.assumptions = [
         "stack bytes per re-entry are measured on this toolchain/target, not proved",
@@ -222,6 +296,7 @@ def run(r):
         "the kind of the root context value (map, (), undefined, object, empty context!, serialized struct) does not enter the accounting (checked on every stream)",
         "frame pushes/pops inside one interpreter activation are balanced (compiled code; C05)",
         "templates only: a Rust callback that starts a fresh render does not inherit the depth",
+        "Rust callbacks of the embedder re-enter only through the State API and nest at most H = 2 deep per interpreter activation (stack budget); their own frames are measured for the harness's callbacks",
         "the `stacker` feature is off (with it the limit is not clamped and the stack grows on demand)",
     ]
     st = r.regen_tables(TABLES)
@@ -231,7 +306,7 @@ def run(r):
     # built and the oracle searches for a failing input in any case (correspondence only if the
     # model driver still builds)
     exes = {p: e for p, e in builds(r).items() if e is not None}
-    stats = {p: {"kinds": {}, "classes": {}, "overhead": 0, "lazy": {}} for p in exes}
+    stats = {p: {"kinds": {}, "classes": {}, "overhead": 0, "lazy": {}, "points": {}} for p in exes}
 
     def drive(text):
         try:
@@ -278,7 +353,7 @@ def run(r):
             if len(f) < 5 or f[1] != "err:recursion":
                 continue
             shape, limit, budget, thread = f[0].split(" ")
-            if budget != "0" or shape[0] not in "TMB" or not thread.startswith("t2m") or int(limit) > max_recursion + 1:
+            if budget != "0" or shape[0] not in CYCLES or not thread.startswith("t2m") or int(limit) > max_recursion + 1:
                 continue
             pure = "," not in shape
             plain = shape.endswith("0000")
@@ -286,7 +361,7 @@ def run(r):
                 continue
             if r.tier == "thorough" and not pure and k % 2 != 0:
                 continue
-            width = 2 if (pure and plain) or r.tier == "thorough" else 1
+            width = 2 if (pure and plain) else 1
             v = int(f[4])
             for b in range(max(1, v - width), v + width + 1):
                 c = f"{shape} {limit} {b} {thread}"
@@ -304,7 +379,8 @@ def run(r):
     def brun(profile):
         bruns[profile] = r.harness(exes[profile], ["run"], inp="\n".join(band) + "\n", timeout=3000)
     # the cut-off does not depend on the build: quick runs the band on the instrumented and the release build
-    bprofiles = [p_ for p_ in phase1 if band and (r.tier == "thorough" or p_ in ("hooks", "release"))]
+    # (thorough: also on the unoptimised build; the other two profiles differ in frame sizes only)
+    bprofiles = [p_ for p_ in phase1 if band and (p_ in ("hooks", "release") or (r.tier == "thorough" and p_ == "debugO0"))]
     ts = [threading.Thread(target=brun, args=(p_,)) for p_ in bprofiles]
     for t in ts:
         t.start()
@@ -356,7 +432,99 @@ def run(r):
         "two_MiB": TWO_MIB, "profiles": report,
     }
     r.extra["lean_snapshot_check"] = snapshot_check(report)
+    r.extra["stack_budget"] = stack_budget(r, stats, known_sites, drive)
     r.exhaustive = False
+
+
+def stack_budget(r, stats, known_sites, drive):
+    """two-limit slopes of every pure cycle (bytes per native level and per depth unit between the
+    runs at limit 100 and at limit 500 on the main thread), reduced to bytes per model kind, entry
+    overhead and bytes per Rust callback frame; the hypotheses of the Lean theorems
+    `stack_budget_holds` / `frame_constants_tied` (`budgetOK`, `frameLowerOK`) are evaluated on
+    these numbers by the model driver"""
+    out = {}
+    lines, meta = [], []
+    for profile, s in stats.items():
+        if PROFILES[profile]["hooks"]:
+            continue
+        slopes = {}
+        for key, pts in s["points"].items():
+            lo, hi = pts.get(100), pts.get(500)
+            if not lo or not hi or hi[2] <= lo[2] or hi[1] <= lo[1]:
+                continue
+            per_level = (hi[0] - lo[0]) / (hi[2] - lo[2])
+            per_unit = (hi[0] - lo[0]) / (hi[1] - lo[1])
+            slopes[key] = {"bytes_per_level": round(per_level, 1), "bytes_per_depth_unit": round(per_unit, 1),
+                           "entry_overhead": max(0, round(hi[0] - per_level * (hi[2] - 1))),
+                           "levels": [lo[2], hi[2]], "bytes": [lo[0], hi[0]], "witness": hi[3]}
+        rep = {"two_limit_slopes": slopes}
+        out[profile] = rep
+        if not slopes:
+            r.broken.append(f"no two-limit stack measurements for profile {profile}")
+            continue
+        kinds, missing = {}, []
+        for kind, keys in PLAIN_OF.items():
+            vals = [slopes[k]["bytes_per_level"] for k in keys if k in slopes]
+            if not vals:
+                missing.append(kind)
+                continue
+            kinds[kind] = (min(vals), max(vals))
+        if missing:
+            r.broken.append(f"no stack measurement for the re-entry kind(s) {missing} in profile {profile}")
+            continue
+        caller = max([kinds["macroCall"][1]] + [slopes[k]["bytes_per_level"] for k in ("M:C", "M:N") if k in slopes])
+        hop = 0.0
+        for key, n in HOPS_OF.items():
+            if key in slopes:
+                base = kinds["blockCall" if (key[0] == "B" or key[2].islower()) else "macroCall"][0]
+                hop = max(hop, (slopes[key]["bytes_per_level"] - base) / n)
+        root = max(v["entry_overhead"] for v in slopes.values())
+        import math
+        b = {k: math.ceil(v[1]) for k, v in kinds.items()}
+        b["callerCall"] = math.ceil(caller)
+        rep["bytes_per_kind"] = b
+        rep["bytes_per_callback_frame"] = math.ceil(hop)
+        rep["entry_overhead"] = root
+        # additivity: a pure cycle that mixes kinds cannot need more per depth unit than the worst kind
+        cost = {"macroCall": 6, "callerCall": 6, "includeTpl": 10, "blockCall": 1, "superCall": 1}
+        for stack, sname in ((TWO_MIB, "2MiB"), (EIGHT_MIB, "8MiB")):
+            for mask, pname in (("11111", "all"), ("11100", "macro+caller+include")):
+                for h in (0, 2):
+                    label = f"{profile}|{sname}|{pname}|H{h}"
+                    lines.append("budget %s %d %d %d %d %d %d %d %d %d %s" % (
+                        label, stack, root, math.ceil(hop) if h else 0, h, b["macroCall"], b["callerCall"], b["includeTpl"],
+                        b["blockCall"], b["superCall"], mask))
+                    meta.append((profile, sname, pname, h, label))
+    if not lines:
+        return out
+    res = drive("\n".join(lines) + "\n")
+    if res is None or len(res) != len(lines):
+        r.broken.append("model driver did not evaluate the stack budget")
+        return out
+    for (profile, sname, pname, h, label), line in zip(meta, res):
+        f = line.split("\t")
+        if len(f) != 8 or f[1] != label:
+            r.broken.append(f"stack budget line not understood: {line[:100]}")
+            continue
+        ok, rho, projected, stack, lower, arrays = f[2] == "true", int(f[3]), int(f[4]), int(f[5]), f[6] == "true", int(f[7])
+        out[profile].setdefault("budget", {})[f"{sname}|{pname}|H{h}"] = {
+            "budgetOK": ok, "rho_bytes_per_depth_unit": rho, "projected_bytes": projected, "stack": stack,
+            "margin": stack - projected, "frameLowerOK": lower, "eval_impl_array_bytes": arrays}
+        r.hist["stack_budget"][f"{sname}|{pname}|H{h}:{'holds' if ok else 'fails'}"] += 1
+        if not lower:
+            r.broken.append(f"{profile}: a measured frame is smaller than the fixed-size arrays of eval_impl ({arrays} bytes): "
+                            f"the regenerated frame table and the measurement do not describe the same code")
+        # obligations: the kinds that are not known findings must fit
+        block_known = any(k in known_sites for k in (f"stack-overflow:{profile}:t2m:{CLASS['B']}", f"stack-overflow:{profile}:t2m:{CLASS['S']}"))
+        if h == 2 and pname == "all":
+            # informational: block calls under two callback frames per level
+            pass
+        must = (pname != "all" and h == 2 and sname == "2MiB") or (pname == "all" and h == 0 and (sname == "8MiB" or not block_known))
+        if must and not ok:
+            observed = any(x["site"].startswith(f"stack-overflow:{profile}:") for x in r.oracle_failures)
+            r.broken.append(f"stack budget does not hold on this run's measurements ({label}): {projected} bytes projected "
+                            f"(rho {rho} B per depth unit) for a stack of {stack}" + (" — children died, see the failing inputs" if observed else ""))
+    return out
 
 
 SNAP_KEYS = {"macroCall": ["M:M000", "M:A000"], "callerCall": ["M:C000"], "includeTpl": ["T:I000", "T:P000"],
